@@ -5,7 +5,7 @@
    cumulative checksums, commit frame) is decided by the byte-level model of C17
    (Props/C17.v, buildTxFrameOffsets). *)
 From Coq Require Import NArith List Bool.
-Require Import LF.Gen.ConstsGen LF.Model.PageDB LF.Proofs.XorLib LF.Proofs.ChecksumProofs LF.Proofs.CaptureProofs.
+Require Import LF.Gen.ConstsGen LF.Model.PageDB LF.Proofs.XorLib LF.Proofs.ChecksumProofs LF.Proofs.CaptureProofs LF.Proofs.HistoryProofs LF.Proofs.WalHistoryProofs LF.Proofs.WalCheckpointProofs LF.Proofs.SqlCheckpointProofs LF.Proofs.WalLogHistoryProofs.
 Import ListNotations.
 Local Open Scope N_scope.
 
@@ -47,3 +47,37 @@ Example C03_spill_then_shrink :
   (o, txid s', pageN s', map (fun f => map (fun kv => (fst kv, pg_h (snd kv))) (l_pages f)) (skipn 1 (ltxdir s')))
   = (Done, 2, 6, [[(1, fl 11); (2, fl 12)]]).
 Proof. vm_compute. reflexivity. Qed.
+
+(* "Exactly once, in order", along histories, in WAL mode too.  [hs]: any rollback-journal history from an empty node; the
+   transaction that switches to WAL mode; [os]: WAL commits, LiteFS checkpoints, pages copied by SQLite, SQLite's complete
+   checkpoint with the restart of the log, in any order ([wf_wops2] as in C04_wal_full_history).  For EVERY such history the
+   log holds exactly one file per committed transaction - rollback-journal or WAL -, the k-th numbered k; a checkpoint of
+   any kind publishes nothing.  (Chained: C09's chain invariant; the right pages: C03_wal_commit_exact; replaying them
+   reproduces the logical database: C01_follower_identical_wal.) *)
+Theorem C03_history_once_in_order : forall lock hs zf acts c os s1 s2 s' v',
+  1 <= lock -> wf_hist (init lock) hs -> run_hsteps (init lock) hs = Some s1 ->
+  wf_tx_any s1 zf acts -> run_group s1 (hops s1 (HTx zf acts c)) = (0, s2) -> wal_mode s2 = true ->
+  wf_wops2 s2 os -> run_wops2 s2 (file_h s2) os = Some (s', v') ->
+  map (fun f => (l_min f, l_max f)) (ltxdir s') = map (fun t => (t, t)) (seqN 1 (N.to_nat (txid s'))) /\
+  length (ltxdir s') = N.to_nat (txid s').
+Proof. exact wal_log_once_in_order. Qed.
+Print Assumptions C03_history_once_in_order.
+
+(* Non-vacuity: five transactions (two under a rollback journal, three in the log), three checkpoints of three kinds *)
+Example C03_history_nonvacuous :
+  let pg h := mkPg (fl h) 0 false in
+  let pw h := mkPg (fl h) 0 true in
+  let hs := [HTx [] [AWrite 1 (pg 11); AWrite 2 (pg 12)] 2] in
+  let sw := [AWrite 1 (pw 13)] in
+  let os := [W2Commit [(2, pw 22); (3, pw 33); (2, pw 23)] 3; W2BackfillOld 2 (pw 22); W2Backfill 2; W2Commit [(1, pw 14)] 2; W2SqlRestart;
+             W2Commit [(3, pw 35); (1, pw 15)] 3; W2Checkpoint] in
+  exists s1 s2,
+    wf_hist (init 2097153) hs /\ run_hsteps (init 2097153) hs = Some s1 /\
+    wf_tx_any s1 [] sw /\ run_group s1 (hops s1 (HTx [] sw 2)) = (0, s2) /\ wal_mode s2 = true /\
+    wf_wops2 s2 os /\
+    match run_wops2 s2 (file_h s2) os with
+    | Some (s', v') => (txid s', map (fun f => (l_min f, l_max f)) (ltxdir s'), map (fun f => map fst (l_pages f)) (ltxdir s'))
+                       = (5, [(1, 1); (2, 2); (3, 3); (4, 4); (5, 5)], [[1; 2]; [1]; [2; 3]; [1]; [1; 3]])
+    | None => False
+    end.
+Proof. exact wal_log_example. Qed.
